@@ -33,10 +33,18 @@ type RunCommandOptions struct {
 }
 
 // RunCommand runs a shell command
-func RunCommand(ctx context.Context, opts *RunCommandOptions) error {
+func RunCommand(ctx context.Context, opts *RunCommandOptions) (err error) {
 	if opts == nil {
 		return ErrNilOptions
 	}
+
+	// A script that makes the shell interpreter panic (some of its builtins
+	// do on unusual arguments) fails like any other command
+	defer func() {
+		if r := recover(); r != nil {
+			err = fmt.Errorf("task: the shell interpreter crashed while running %q: %v", opts.Command, r)
+		}
+	}()
 
 	// Set "-e" or "errexit" by default
 	opts.PosixOpts = append(opts.PosixOpts, "e")
